@@ -188,7 +188,10 @@ def handleOp (st : DSt) (line : String) : String :=
      | none => "bad-request")
   | ["rchars", d] =>
     (match parseDesc d with
-     | some s => resStr (rcharsOp U s)
+     | some s =>
+       let r := rcharsOp U s
+       let ok := resStr r == resStr (strList (rcharsB U s.bytes))
+       resStr r ++ (if ok then "" else " !spec:rchars")
      | none => "bad-request")
   | ["cidx", d] =>
     (match parseDesc d with
